@@ -478,6 +478,11 @@ func (b *bitstream) validateAnnotatedValue(remainingLength uint64) error {
 		return &SyntaxError{"an annotation cannot be the enclosed value of another annotation", b.pos}
 	}
 
+	if code == bitcodeFalse {
+		// A bool's length nibble holds its value; the encoding has no further bytes.
+		length = 0
+	}
+
 	// Adjust remainingLength because we just processed the first byte of the annotated data.
 	remainingLength--
 
